@@ -6,14 +6,14 @@ indices, charge, labels and every block (sign included) must be identical."""
 
 from __future__ import annotations
 
-from engine.absarray import Model
+from engine.absarray import Model, all_sectors
 from engine.absops import NONTRIVIAL, PYERR, TABLES, Spec, World, partner, specs
 from engine.layout import LayoutError
 from engine.loader import AnalysisError
 from engine.minieval import Diverges, Obj, Raised, Unsupported
 from rules.sem_layout import Witness, ixdesc
 
-SKIP = ("qr", "svd", "eigh", "solve", "phase_sync", "copy", "constructor", "odd charge", "fill_missing")
+SKIP = ("phase_sync", "copy", "constructor", "odd charge", "fill_missing")
 
 
 def observable(w, ev, r):
@@ -82,7 +82,7 @@ def extra_ops(w, prog, sp):
 def _programs(b, w, prog, sp, tier, square):
     """(name, anchor, fn, others, prep): `prep` builds the array whose pending signs the twins differ in (None: the
     family member itself, which is built with pending signs)"""
-    from rules.c01_coupdate import CHAIN_SKIP_SECOND, _fuse_groupings, binary_ops, square_ops, unary_ops
+    from rules.c01_coupdate import CHAIN_SKIP_SECOND, _fuse_groupings, binary_ops, matrix_ops, square_ops, unary_ops
 
     arr = prog.cls("FermionicArray")
     nd = sp.ndim
@@ -92,6 +92,14 @@ def _programs(b, w, prog, sp, tier, square):
     ops += [(n, a, f, o, None) for (n, a, f, o) in extra_ops(w, prog, sp)]
     if square:
         ops += [(n, a, f, (), None) for (r, n, a, f) in square_ops(b, sp) if not any(k in n for k in SKIP)]
+    if nd == 2:
+        # the factorisations: compared up to the declared gauge facts (the sign of a block may sit on Q / U)
+        ops += [(n, a, f, (), None) for (r, n, a, f) in matrix_ops(b, sp) if not any(k in n for k in SKIP)]
+        full = partner(sp, 2, 0, tag="y")
+        if full is not None:
+            tdi = prog.func("symmray.interface:tensordot")
+            ops.append(("tensordot (scalar result)", tdi,
+                        lambda ev, x, y: w.fn(ev, "symmray.interface:tensordot", x, y, axes=((0, 1), (0, 1))), (full,), None))
 
     # pending signs that arise in the middle of a computation: the intermediate array is used as it is / synchronised first
     def second_ops(nd2):
@@ -192,6 +200,79 @@ def _lazy_job(state, case):
         except LayoutError as e:
             wit.bad(key, f"{where}: {e}")
     return wit.w, wit.n, reached
+
+
+def _sync_job(state, sp):
+    """R09.6: what phase_sync itself does, on one array"""
+    prog, tier = state
+    w = World(prog)
+    wit = Witness()
+    where = sp.describe()
+
+    def blocks(o):
+        return {k: b.term for k, b in o.fields["_blocks"].items()}
+
+    try:
+        for extra in (False, True):
+            for inplace in (False, True):
+                ev = w.ev()
+                x = sp.build(w)
+                if extra:
+                    # a pending sign recorded for a sector that has no block (an implicit zero block): nothing to negate
+                    absent = [s_ for s_ in all_sectors(Model(sp.sym), sp.duals, sp.charge, sp.tables) if s_ not in x.fields["_blocks"]]
+                    if not absent:
+                        continue
+                    x.fields["_phases"][absent[0]] = -1
+                before, signs = blocks(x), dict(x.fields["_phases"])
+                want = {k: ((-b).term if signs.get(k, 1) == -1 else b.term) for k, b in x.fields["_blocks"].items()}
+                wit.tick("R09.6")
+                y = w.meth(ev, x, "phase_sync", inplace=inplace)
+                tag = f"phase_sync(inplace={inplace})" + (" with a sign on an absent sector" if extra else "")
+                if not isinstance(y, Obj) or "_blocks" not in y.fields:
+                    wit.bad("R09.6|result", f"{where}: {tag} does not return an array")
+                    continue
+                if y.fields.get("_phases"):
+                    wit.bad("R09.6|drained", f"{where}: {tag} leaves pending signs {dict(y.fields['_phases'])}")
+                if blocks(y) != want:
+                    bad = [k for k in set(want) | set(blocks(y)) if want.get(k) != blocks(y).get(k)][:2]
+                    wit.bad("R09.6|once", f"{where}: {tag}: each block with a pending -1 is negated exactly once and no other block is touched "
+                                          f"(differs at sectors {bad})")
+                if inplace and y is not x:
+                    wit.bad("R09.6|inplace", f"{where}: {tag} returns another object")
+                if not inplace and (blocks(x) != before or dict(x.fields["_phases"]) != signs):
+                    wit.bad("R09.6|operand", f"{where}: {tag} changes its operand")
+                z = w.meth(ev, y, "phase_sync")
+                if blocks(z) != want or z.fields.get("_phases"):
+                    wit.bad("R09.6|idempotent", f"{where}: synchronising twice differs from synchronising once")
+    except Unsupported as e:
+        raise AnalysisError(f"phase_sync outside the evaluable sub-language: {e}")
+    except Raised as e:
+        wit.bad("R09.6|refused", f"{where}: phase_sync raises {e.what[:120]}")
+    except PYERR as e:
+        wit.bad("R09.6|fails", f"{where}: phase_sync fails with {type(e).__name__}: {e}")
+    return wit.w, wit.n
+
+
+def check_sync_semantics(prog, ctx):
+    from engine.parallel import pmap
+
+    tier = ctx.tier
+    syms = ("Z2", "U1") if tier == "quick" else ("Z2", "U1", "Z2Z2", "U1U1", "Z4")
+    cases = [sp for sp in specs(tier, syms=syms, ranks=(1, 2, 3), fermionic=(True,))]
+    wits, n = {}, 0
+    for wmap, cnt in pmap(_sync_job, (prog, tier), cases):
+        for k, v in wmap.items():
+            wits.setdefault(k, v)
+        n += cnt.get("R09.6", 0)
+    ctx.need(n >= 100 or wits, f"R09.6: only {n} synchronisations evaluated")
+    f = prog.func("symmray.fermionic_core:FermionicArray.phase_sync")
+    msg = ("phase_sync negates exactly the blocks that carry a pending -1, once, empties the sign table, tolerates a sign on an absent "
+           "sector, leaves its operand alone unless asked to work in place, and is idempotent")
+    if not wits:
+        ctx.check(True, "R09.6", f, f.node, "R09.6", f"{msg} ({n} evaluations)")
+    for key, wmsg in sorted(wits.items()):
+        ctx.check(False, "R09.6", f, f.node, key.split("|", 1)[1], f"{msg} — witness: {wmsg}")
+    return n
 
 
 def check_lazy_equivalence(prog, ctx):
